@@ -529,6 +529,34 @@ func RuleS2(c *Ctx) {
 	okTotal := total.eq(n)
 	whyTotal := ""
 	if !okTotal {
+		// T, base and E may all be merged in front of the loop (a helper that returns the three of them): the sum
+		// is then taken on each way into the loop
+		var jp []*ssa.Phi
+		var jb *ssa.BasicBlock
+		one := true
+		for _, l := range pc.leaves {
+			if ph, isPhi := l.(*ssa.Phi); isPhi && !cl.loop.Blocks[ph.Block()] && total.mentions(pc.leaf(ph)) {
+				if jb != nil && ph.Block() != jb {
+					one = false
+				}
+				jb = ph.Block()
+				jp = append(jp, ph)
+			}
+		}
+		if jb != nil && one {
+			okTotal = true
+			for k := range jb.Preds {
+				sub := map[string]poly{}
+				for _, ph := range jp {
+					sub[pc.leaf(ph)] = pc.of(ph.Edges[k], 0)
+				}
+				if !total.subst(sub).eq(n) {
+					okTotal = false
+				}
+			}
+		}
+	}
+	if !okTotal {
 		whyTotal = fmt.Sprintf("the ranges add up to T*base + E = %s, not to nbIterations", show(total))
 	}
 	// 0 <= E <= T on every way into the loop
